@@ -52,3 +52,23 @@ func twoChecks(a []int, i int) int {
 	// the second access is covered by the first check having passed; the first is not covered by anything
 	return a[i] + a[i]
 }
+
+type tok struct {
+	Data string
+	Pos  int
+}
+
+func twoChar(q string, i int) *tok {
+	if i >= 1 && i < len(q) && q[i] == '=' && q[i-1] == '^' {
+		return &tok{Data: "^=", Pos: i - 1}
+	}
+	return nil
+}
+
+func oneChar(q string, i int) *tok {
+	if i >= 0 && i < len(q) && q[i] == '(' {
+		c := q[i]
+		return &tok{Data: string(c), Pos: i}
+	}
+	return nil
+}
